@@ -1833,3 +1833,111 @@ package sarama
 // stand-in (exhaustive over small group shapes, chains of rebalances with stale and conflicting user data, run on
 // the real code) takes their place. It is labelled bounded in the evidence and is not counted as proved.
 //@ bounded[sticky] bounded/sticky_bounded_test.go TestVerifBoundedSticky props C08 C13
+
+// ---------------------------------------------------------------------------------------------
+// consumer_group.go (C07, thin): the identity clauses of the session life-cycle. Each request of a session carries
+// the group id, the member id and the generation the coordinator issued; a member that the coordinator fences
+// (unknown member id / illegal generation) rejoins with a fresh (empty) member id; a claim starts at the offset
+// manager's next offset, and an out-of-range start falls back to the configured initial position.
+// The life-cycle order itself (Setup once, claims, Cleanup once, final commit, return) is a property of goroutines
+// and is not decided (DESIGN.md).
+
+//@ func (b *Broker) JoinGroup(request) trusted
+//@   returns rsp, err
+//@   ensures err == nil ==> rsp != nil
+//@   modifies nothing
+//@ func (b *Broker) SyncGroup(request) trusted
+//@   returns rsp, err
+//@   ensures err == nil ==> rsp != nil
+//@   modifies nothing
+//@ func (b *Broker) Heartbeat(request) trusted
+//@   returns rsp, err
+//@   ensures err == nil ==> rsp != nil
+//@   modifies nothing
+//@ func (b *Broker) LeaveGroup(request) trusted
+//@   returns rsp, err
+//@   ensures err == nil ==> rsp != nil
+//@   modifies nothing
+
+//@ func (client Client) Coordinator(consumerGroup) trusted
+//@   returns b, err
+//@   ensures err == nil ==> b != nil
+//@   modifies nothing
+//@ func (r *JoinGroupRequest) AddGroupProtocolMetadata(name, metadata) trusted
+//@   returns err
+//@   modifies r.GroupProtocols, r.OrderedGroupProtocols
+//@ func (r *SyncGroupRequest) AddGroupAssignmentMember(memberId, memberAssignment) trusted
+//@   returns err
+//@   modifies r.GroupAssignments
+//@ func (c *consumerGroup) joinGroupRequest(coordinator, topics) props C07
+//@   returns rsp, err
+//@   requires c.config != nil && coordinator != nil
+//@   callsite Broker.JoinGroup: requires[carries_identity] $request != nil && $request.GroupId == c.groupID && $request.MemberId == c.memberID && $request.ProtocolType == "consumer"
+//@   ensures[identity_kept] c.memberID == old(c.memberID)
+//@   ensures err == nil ==> rsp != nil
+//@   modifies nothing
+//@   nosafety
+
+//@ func (c *consumerGroup) syncGroupRequest(coordinator, plan, generationID) props C07
+//@   returns rsp, err
+//@   requires c.config != nil && coordinator != nil
+//@   callsite Broker.SyncGroup: requires[carries_identity_and_generation] $request != nil && $request.GroupId == c.groupID && $request.MemberId == c.memberID && $request.GenerationId == generationID
+//@   ensures[identity_kept] c.memberID == old(c.memberID)
+//@   ensures err == nil ==> rsp != nil
+//@   modifies ConsumerGroupMemberAssignment.UserData
+//@   nosafety
+
+//@ func (c *consumerGroup) heartbeatRequest(coordinator, memberID, generationID) props C07
+//@   returns rsp, err
+//@   requires coordinator != nil
+//@   callsite Broker.Heartbeat: requires[carries_identity_and_generation] $request != nil && $request.GroupId == c.groupID && $request.MemberId == memberID && $request.GenerationId == generationID
+//@   nosafety
+
+// newSession: the member id is the one the coordinator returned; sync and the session carry that id and the
+// generation of the join response; fencing resets the identity before the immediate rejoin.
+//@ func (c *consumerGroup) retryNewSession(ctx, topics, handler, retries, refreshCoordinator) trusted
+//@   returns s, err
+//@   modifies c.memberID, c.userData
+//@ func newConsumerGroupSession(ctx, parent, claims, memberID, generationID, handler) trusted
+//@   returns s, err
+//@   modifies nothing
+//@ func (c *consumerGroup) balance(members) trusted
+//@   returns plan, err
+//@   modifies nothing
+//@ func (r *JoinGroupResponse) GetMembers() trusted
+//@   returns m, err
+//@   modifies nothing
+//@ func (r *SyncGroupResponse) GetMemberAssignment() trusted
+//@   returns a, err
+//@   ensures err == nil ==> a != nil
+//@   modifies nothing
+//@ func (c *consumerGroup) newSession(ctx, topics, handler, retries) props C07
+//@   returns s, err
+//@   requires c.config != nil && c.client != nil
+//@   callsite consumerGroup.newSession: requires[fenced_member_rejoins_with_fresh_identity] c.memberID == ""
+//@   callsite consumerGroup.newSession: modifies c.memberID, c.userData
+//@   callsite consumerGroup.syncGroupRequest: requires[sync_carries_issued_identity] c.memberID == join.MemberId && $generationID == join.GenerationId && join.Err == ErrNoError
+//@   callsite newConsumerGroupSession: requires[session_carries_issued_identity] $memberID == join.MemberId && $generationID == join.GenerationId && c.memberID == join.MemberId && join.Err == ErrNoError && groupRequest.Err == ErrNoError
+//@   callsite consumerGroup.balance: requires[only_the_leader_plans] join.LeaderId == join.MemberId
+//@   nosafety
+
+// leave: the request names this member; afterwards the identity is forgotten
+//@ func (c *consumerGroup) leave() props C07
+//@   returns err
+//@   requires c.client != nil
+//@   callsite Broker.LeaveGroup: requires[carries_identity] $request != nil && $request.GroupId == c.groupID && $request.MemberId == c.memberID && c.memberID != ""
+//@   nosafety
+
+// claims: an out-of-range start offset falls back to the configured initial position (and only then)
+// (A-own: starting a partition consumer does not change the configuration or existing claims)
+//@ func (c Consumer) ConsumePartition(topic, partition, offset) trusted
+//@   returns pc, err
+//@   modifies nothing
+//@ func newConsumerGroupClaim(sess, topic, partition, offset) props C07
+//@   returns claim, err
+//@   requires sess != nil && sess.parent != nil && sess.parent.config != nil && sess.parent.consumer != nil
+//@   callsite Consumer.ConsumePartition#0: requires[starts_at_given_offset] $topic == topic && $partition == partition && $offset == offset
+//@   callsite Consumer.ConsumePartition#1: requires[fallback_is_initial_position] $topic == topic && $partition == partition && $offset == sess.parent.config.Consumer.Offsets.Initial
+//@   ensures[claim_names_its_partition] err == nil ==> claim != nil && claim.topic == topic && claim.partition == partition
+//@   ensures[claim_records_its_start] err == nil ==> claim.offset == old(offset) || claim.offset == old(sess.parent.config.Consumer.Offsets.Initial)
+//@   nosafety
